@@ -7,6 +7,7 @@ GEN_KINDS = {
     "polyglot": "PolyglotData.v",
     "bitbase": "BitbaseDump.v",
     "consts": "Consts.v",
+    "layout": "Layout.v",
 }
 
 
